@@ -49,6 +49,19 @@ def judge(acc, case, prog, cfg, rng):
         if prim - tau > viol * sc and not any(f["key"].startswith("identity") for f in findings):
             findings.append({"key": "primal_exceeds_dual", "what": "primal %.9g > identity constant %.9g" % (prim, tau),
                              "defect": prim - tau, "scale": sc, "grade": "violated"})
+    # the certificate must also be the one of the LATEST solve when the same object is solved again after an edit
+    if not any(f["grade"] == "violated" and not f["key"].startswith("identity_open") for f in findings) and rng.random() < 0.3:
+        try:
+            r2 = sb.resolve_after_edit(case, cfg, rng)
+        except Exception:
+            r2 = None
+        if r2 is not None:
+            rec2, out2 = r2
+            acc.count("resolves_judged")
+            f2, info2 = oracles.certificate_check(rec2, out2[1], cfg.get("mode", "dual"))
+            for f in f2:
+                if f["key"] != "identity_open_in_span_of_lmi_entry_symmetries":
+                    findings.append(dict(f, key="after_resolve:" + f["key"], what="second solve of the same object: " + f["what"]))
     return findings
 
 
